@@ -146,6 +146,7 @@ def jobs(tier):
         out.append(Job('C10', 's1.timeout', t_timeout, dict(T='1/4', depth=3, child='await'), witnesses=W, max_paths=6000))
         out.append(Job('C10', 's1.timeout', t_timeout, dict(T='1/4', depth=3, child='ff'), witnesses=W, max_paths=6000))
     out += matrix_jobs('C10', 'm2', tier)
+    out += matrix_jobs('C10', 'm3', tier)
     from ._common import mk
     from .. import scenlib as S
     out += mk('C10', 'timeout_during_wal', S.timeout_during_wal(), witnesses=('timeout fired', 'no timeout'))
